@@ -59,7 +59,7 @@ CHECKS = {
             "trusts the SimSelector/SimExecutor/SimRLock contracts (Appendix D); pre-emption at simulated system calls, lock/executor/selector operations and (a third of the runs) at CPython eval-breaker points inside gthread.py via sys.monitoring",
             "deterministic simulation of threads (baton passing) with seeded scheduling and fault injection"),
     "C17": ("W5-pidfile",
-            "fault enumeration: seeded operation histories by 2-3 instances checked against a model of the path's content, then one run per system-call index of the last create/rename (crash) and per file-system call (ENOSPC/EACCES) - exhaustive over crash points of that operation",
+            "fault enumeration: seeded operation histories by 2-3 instances checked against a model of the path's content, then one run per system-call index of the last create/rename (crash) and per file-system call (ENOSPC/EACCES) - exhaustive over crash points of that operation; plus a family in which 2-3 masters call create() at the same moment and their system calls interleave under the seeded scheduler",
             "operations of different instances are atomic w.r.t. each other (the property's own quantifier); rename(2) atomic; pid liveness = kill(pid, 0)",
             "deterministic simulation with exhaustive crash-point enumeration on a simulated file system"),
     "C04": ("W4-master",
@@ -71,7 +71,7 @@ CHECKS = {
             "bind unchanged; gevent and eventlet via shims; gthread/async connections accepted but never read are outside the statement (counted as a probe)",
             "deterministic simulation of reload histories with kernel-level observation of descriptors"),
     "C14": ("W4-master",
-            "seeded exploration of orderings of USR2 / TERM / QUIT / WINCH / HUP / kill of either master under client load, TCP and unix binds; the exec'd binary is the same real Arbiter started from the environment the real reexec() built; stub workers, or (3/7 of the runs) the real sync/gthread/gevent/eventlet workers serving the clients on both sides of the hand-over",
+            "seeded exploration of orderings of USR2 / TERM / QUIT / WINCH / HUP / kill of either master under client load, TCP and unix binds; the exec'd binary is the same real Arbiter started from the environment the real reexec() built; stub workers, or (3/7 of the runs) the real sync/gthread/gevent/eventlet workers serving the clients on both sides of the hand-over; faults: the new binary cannot be exec'd (execvpe failing), the new release cannot boot its workers, HUP to the new master",
             "execvpe model: non-CLOEXEC descriptors survive, environment replaced; systemd socket activation not in these histories",
             "deterministic simulation of two-master histories (fork+exec on the simulated kernel) with event-level invariants"),
     "C18": ("W3-worker",
